@@ -4,4 +4,4 @@ import supcheck
 
 
 def run(ctx):
-    supcheck.run(ctx, "C04", kinds="deps,shutdown,single,trigger", n_quick=160, n_thorough=1600)
+    supcheck.run(ctx, "C04", kinds="deps,shutdown,single,trigger,skipchain", n_quick=180, n_thorough=1600)
